@@ -130,6 +130,13 @@ pub fn run(run: &mut Run) {
     let small = vectors(3, &[-2, -1, 0, 1, 2]);
     let mut with_ext = small.clone();
     with_ext.extend([vec![i64::MAX], vec![i64::MIN], vec![i64::MAX, -1], vec![i64::MIN, 1], vec![i64::MAX, i64::MIN, 1]]);
+    // all vectors of length 4 over {-1, 0, 1} (equal totals with different per-case results abound), and
+    // long vectors around 2^8 elements
+    with_ext.extend(vectors(4, &[-1, 0, 1]).into_iter().filter(|v| v.len() == 4));
+    for len in [255usize, 256, 257, 300] {
+        with_ext.push(vec![1; len]);
+        with_ext.push((0..len as i64).map(|i| if i % 2 == 0 { i } else { -i }).collect());
+    }
     let mut built_s: Vec<(Vec<i64>, TestResults<Score<i64>>)> = vec![];
     let mut built_e: Vec<(Vec<i64>, TestResults<Error<i64>>)> = vec![];
     for v in &with_ext {
